@@ -146,30 +146,25 @@ LexCmp(s, t) ==
   ELSE IF s[1] > t[1] THEN 1
   ELSE LexCmp(Tail(s), Tail(t))
 
-\* natural order of two strings: maximal digit runs compare by value, text in between as strings
-\* (python list comparison of re.split(r"(\d+)", s) with the numbers converted to int)
-IsDig(ch) == ch >= 48 /\ ch <= 57
-RECURSIVE DigRun(_)
-DigRun(s) == IF s = << >> \/ ~IsDig(s[1]) THEN 0 ELSE 1 + DigRun(Tail(s))
-RECURSIVE NumVal(_, _, _)
-NumVal(s, k, acc) == IF k = 0 THEN acc ELSE NumVal(Tail(s), k - 1, acc * 10 + (s[1] - 48))
-RECURSIVE NatCmp(_, _)
-NatCmp(s, t) ==
-  IF s = << >> THEN (IF t = << >> THEN 0 ELSE -1)
-  ELSE IF t = << >> THEN 1
-  ELSE IF IsDig(s[1]) /\ IsDig(t[1]) THEN
-         LET a == DigRun(s)  b == DigRun(t)
-             x == NumVal(s, a, 0)  y == NumVal(t, b, 0) IN
-         IF x < y THEN -1 ELSE IF x > y THEN 1
-         ELSE NatCmp(SubSeq(s, a + 1, Len(s)), SubSeq(t, b + 1, Len(t)))
-  ELSE IF IsDig(s[1]) THEN -1          \* the text token of s ended first: it is a proper prefix
-  ELSE IF IsDig(t[1]) THEN 1
-  ELSE IF s[1] < t[1] THEN -1
-  ELSE IF s[1] > t[1] THEN 1
-  ELSE NatCmp(Tail(s), Tail(t))
-ReprCmp(s, t) == IF ReprRule = "natural"
-                 THEN (LET c == NatCmp(s, t) IN IF c # 0 THEN c ELSE LexCmp(s, t))
-                 ELSE LexCmp(s, t)
+\* Natural order ("natural" rule): python compares re.split(r"(\d+)", repr) with the digit runs
+\* converted to int, i.e. lists alternating text and numbers.  The key of a repr is built directly
+\* from the term, like Repr, but every decimal number becomes ONE entry (value - 10^7: below every
+\* character and ordered by value), so the natural order is the lexicographic order of the keys
+\* (a number against a character means the text of the first string ended earlier: smaller).
+DecK(m) == IF m < 0 THEN <<MINUS, (0 - m) - 10000000>> ELSE <<m - 10000000>>
+RECURSIVE CommaJoinK(_)
+CommaJoinK(s) == IF Len(s) = 1 THEN DecK(s[1]) ELSE DecK(s[1]) \o <<CM, SPC>> \o CommaJoinK(Tail(s))
+PyTupleK(s) == IF Len(s) = 0 THEN <<LP, RP>>
+               ELSE IF Len(s) = 1 THEN <<LP>> \o DecK(s[1]) \o <<CM, RP>>
+               ELSE <<LP>> \o CommaJoinK(s) \o <<RP>>
+KeyMesh(d) == <<77>> \o <<CM, SPC>> \o DecK(d) \o <<RP>>
+ReprKey(t) ==
+  CASE t.k = "const" -> KeyMesh(t.d) \o <<CM, SPC>> \o PyTupleK(t.sh) \o <<CM, SPC>> \o DecK(t.n) \o <<RP>>
+    [] t.k = "int"   -> DecK(t.n) \o <<RP>>
+    [] t.k = "float" -> DecK(t.n \div 10) \o <<DOT>> \o DecK(t.n % 10) \o <<RP>>
+    [] t.k = "zero"  -> PyTupleK(t.sh) \o <<CM, SPC>> \o PyTupleK(Counts(t.ix)) \o <<CM, SPC>> \o PyTupleK(t.fd) \o <<RP>>
+    [] t.k = "geo"   -> KeyMesh(t.d) \o <<RP>>
+    [] OTHER         -> << >>
 
 \* the dispatch `if x in _terminal_cmps: ... else _cmp_terminal_by_repr`
 TermCmp(x, y) ==
@@ -177,7 +172,7 @@ TermCmp(x, y) ==
   ELSE IF x.tc = TC.Argument    THEN [c |-> ArgCmp(x, y),         br |-> "argument"]
   ELSE IF x.tc = TC.Coefficient THEN [c |-> CoefCmp(x, y),        br |-> "coefficient"]
   ELSE IF x.tc = TC.Label       THEN [c |-> 0,                    br |-> "label"]
-  ELSE                               [c |-> ReprCmp(Repr(x), Repr(y)), br |-> "repr"]
+  ELSE                               [c |-> IF ReprRule = "natural" THEN (IF LexCmp(ReprKey(x), ReprKey(y)) # 0 THEN LexCmp(ReprKey(x), ReprKey(y)) ELSE LexCmp(Repr(x), Repr(y))) ELSE LexCmp(Repr(x), Repr(y)), br |-> "repr"]
 
 ----------------------------------------------------------------------------
 (* PART 1b.  The loop of cmp_expr, as coded.  A loop state is              *)
